@@ -1026,7 +1026,20 @@ func ForeignAlternatives(c *HintCall) []Alternative {
 				hi2.Mul(hi2, new(big.Int).ModInverse(new(big.Int).Lsh(one, k), R)).Mod(hi2, R)
 				out := make([]*big.Int, 2)
 				out[ord], out[1-ord] = lo2, hi2
-				return append(alts, Alternative{Family: fmt.Sprintf("split/low-bit-flipped-high-solved k=%d", k), Out: out})
+				alts = append(alts, Alternative{Family: fmt.Sprintf("split/low-bit-flipped-high-solved k=%d", k), Out: out})
+				// everything in the low part / everything in the high part
+				if hi.Sign() != 0 {
+					o2 := make([]*big.Int, 2)
+					o2[ord], o2[1-ord] = new(big.Int).Set(x), new(big.Int)
+					alts = append(alts, Alternative{Family: fmt.Sprintf("split/all-in-low k=%d", k), Out: o2})
+				}
+				if lo.Sign() != 0 {
+					o3 := make([]*big.Int, 2)
+					h3 := new(big.Int).Mul(x, new(big.Int).ModInverse(new(big.Int).Lsh(one, k), R))
+					o3[ord], o3[1-ord] = new(big.Int), h3.Mod(h3, R)
+					alts = append(alts, Alternative{Family: fmt.Sprintf("split/all-in-high k=%d", k), Out: o3})
+				}
+				return alts
 			}
 		}
 	}
